@@ -78,4 +78,10 @@ theorem late_binding_differs :
 /-! ### Non-vacuity -/
 example : compoundSpec [(true, [.int 3]), (false, [.int 3, .int 1])] [.int 1, .int 2] = [.int 1, .int 3] := by rfl
 
+/-- Intersection is by JSON value: a value of the left result is kept exactly when the right result holds a value equal
+    to it as JSON (`J.eqv`) - a number is not found among booleans. -/
+theorem intersection_by_json_value (v : J) (objs : List J) : inObjs v objs = objs.any (fun o => v.eqv o) := rfl
+
+example : inObjs (.int 1) [.bool true] = false ∧ inObjs (.int 2) [.flt 16] = true := by decide
+
 end JP.Props.C11
